@@ -170,3 +170,11 @@ Fixpoint first_pair (p : hpoly) : option (label * label) :=
   end.
 
 Definition fresh_above (p : hpoly) : nat := S (fold_right Nat.max 0%nat (hvars p)).
+
+(* every constraint of the sequence is used: its pair occurs together in a term of degree > 2 of the
+   polynomial reduced so far *)
+Fixpoint admissible (p : hpoly) (cs : list cons3) : bool :=
+  match cs with
+  | [] => true
+  | (u, v, x) :: r => existsb (fun t => applies u v (fst t)) p && admissible (subst_step (u, v, x) p) r
+  end.
